@@ -1,4 +1,5 @@
 import LettreVerif.Props.C07
 #print axioms LV.C07.commits_equal_successes
+#print axioms LV.C07.one_place_at_a_time
 #print axioms LV.C07.transaction_commits_iff_ok
 #print axioms LV.C07.ids_valid
